@@ -452,3 +452,51 @@ def rng_for(seed, *salt):
 
 def fmt_list(xs):
     return "[" + ",".join(str(x) for x in xs) + "]"
+
+# ---------------------------------------------------------------------------
+# anchored-source digest: has the code a property is anchored in changed since the
+# model was last validated against it (anchors.lock.json, regenerated by
+# tools/update_anchor_lock.py after every commit to /repo)?  A change never alters a
+# verdict: it only makes the quick tier spend a larger case budget on that tree.
+# ---------------------------------------------------------------------------
+def _source_digest(path):
+    import ast
+    import hashlib
+    try:
+        tree = ast.parse(Path(path).read_text())
+    except Exception:
+        return "unparsable"
+    for node in ast.walk(tree):
+        body = getattr(node, "body", None)
+        if isinstance(body, list) and body and isinstance(body[0], ast.Expr) and isinstance(
+                getattr(body[0], "value", None), ast.Constant) and isinstance(body[0].value.value, str):
+            node.body = body[1:] or [ast.Pass()]
+    return hashlib.sha256(ast.dump(tree, include_attributes=False).encode()).hexdigest()[:16]
+
+
+def source_digests(repo=None):
+    repo = Path(repo or REPO)
+    out = {}
+    for f in sorted((repo / "cfdm").rglob("*.py")):
+        rel = str(f.relative_to(repo))
+        if "/test/" in rel or rel.startswith("cfdm/test"):
+            continue
+        out[rel] = _source_digest(f)
+    return out
+
+
+def anchors_changed(pid):
+    """(anchored files of `pid` that changed, other cfdm files that changed) relative to anchors.lock.json"""
+    lock_file = VERIF / "anchors.lock.json"
+    if not lock_file.exists():
+        return [], []
+    lock = json.loads(lock_file.read_text())["digests"]
+    now = source_digests()
+    changed = sorted(f for f in set(lock) | set(now) if lock.get(f) != now.get(f))
+    anchored = set()
+    for line in (VERIF / "properties.jsonl").read_text().splitlines():
+        if line.strip():
+            d = json.loads(line)
+            if d["id"] == pid:
+                anchored = set(d.get("anchors", {}).get("files", []))
+    return [f for f in changed if f in anchored], [f for f in changed if f not in anchored]
